@@ -364,8 +364,8 @@ bool apply_item(CDNS::CdnsDecoder* dec, const Item& it, std::string& detail) {
         case R_BOOL: { bool v = dec->read_bool(); ok = v == it.b; detail = "bool"; break; }
         case R_BYTES: { std::string v = dec->read_bytestring(); ok = v == it.s; detail = "byte string of " + std::to_string(v.size()) + " vs " + std::to_string(it.s.size()) + " bytes"; break; }
         case R_TEXT: { std::string v = dec->read_textstring(); ok = v == it.s; detail = "text string of " + std::to_string(v.size()) + " vs " + std::to_string(it.s.size()) + " bytes"; break; }
-        case R_ARRAY_START: { bool ind = false; uint64_t v = dec->read_array_start(ind); ok = ind == it.indef && (ind || v == it.u); detail = "count " + std::to_string(v) + " indef " + std::to_string(ind); break; }
-        case R_MAP_START: { bool ind = false; uint64_t v = dec->read_map_start(ind); ok = ind == it.indef && (ind || v == it.u); detail = "count " + std::to_string(v) + " indef " + std::to_string(ind); break; }
+        case R_ARRAY_START: { bool ind = it.u & 1; /* the flag is an out-parameter: whatever it held before must not matter */ uint64_t v = dec->read_array_start(ind); ok = ind == it.indef && (ind || v == it.u); detail = "count " + std::to_string(v) + " indef " + std::to_string(ind); break; }
+        case R_MAP_START: { bool ind = !(it.u & 1); uint64_t v = dec->read_map_start(ind); ok = ind == it.indef && (ind || v == it.u); detail = "count " + std::to_string(v) + " indef " + std::to_string(ind); break; }
         case R_BREAK: dec->read_break(); break;
         case R_ARRAY_CB: {
             std::vector<uint64_t> got;
